@@ -86,8 +86,9 @@ def warmup_sentences(sent, k):
 def execute(ev, case, want_pops=False):
     """run the real parser on the prepared sentence"""
     sent = ev.sent
-    warm = warmup_sentences(sent, int(case.get('warmup') or 0))
     via_pool = bool(case.get('via_pool'))       # results (and grammar, categories) cross a pickle boundary
+    # (the pooled branch is taken for calls of two or more sentences: a pooled case has at least one warm-up sentence)
+    warm = warmup_sentences(sent, max(int(case.get('warmup') or 0), 1 if via_pool else 0))
     try:
         if want_pops and not warm:
             with native.PopTrace() as tr:
@@ -100,6 +101,16 @@ def execute(ev, case, want_pops=False):
             if len(results) == len(warm) + 1:
                 results, docs = results[len(warm):], docs[len(warm):]
     except Exception as ex:  # the parser itself raised
+        from vlib.runner import HarnessError, OutOfDomain
+        if isinstance(ex, (OutOfDomain, HarnessError)):
+            raise
+        import traceback
+        frames = traceback.extract_tb(ex.__traceback__)
+        if isinstance(ex, (NameError, AttributeError, TypeError)) and frames and \
+                ('_parsing_translated' in frames[-1].filename or '/vlib/' in frames[-1].filename):
+            # raised by the run-time translation of parsing.pyx or by a stand-in of the harness (a Cython name the
+            # translator does not supply, a method a stand-in lacks): a limitation of the harness, not a verdict
+            raise HarnessError(f'{type(ex).__name__}: {ex} (at {frames[-1].filename}:{frames[-1].lineno})') from ex
         ev.exception = ex
         return ev
     ev.results = results
@@ -199,7 +210,7 @@ def score_fails(ev, P):
     if ev.placeholder:
         return fails
     for k, st in enumerate(ev.trees):
-        if st.tree.is_leaf and dict(st.tree.token) == {'word': 'FAILED'} and ev.n != 1:
+        if st.tree.is_leaf and st.tree.token.get('word') == 'FAILED' and ev.n != 1:
             continue
         want, problems = oc.tree_score(st.tree, ev.tag_index, ev.sent['tag'], ev.sent['dep'],
                                        float(ev.cfg['unary_penalty']))
@@ -214,7 +225,7 @@ def score_fails(ev, P):
 def placeholder_score_fails(ev, P):
     if ev.trees is not None and len(ev.trees) == 1:
         t = ev.trees[0]
-        if t.tree.is_leaf and dict(t.tree.token) == {'word': 'FAILED'} and str(t.tree.cat) == 'NP' \
+        if t.tree.is_leaf and t.tree.token.get('word') == 'FAILED' \
                 and ev.sent['words'] != ['FAILED'] and t.score != -INF:
             return [(f'{P}/placeholder-score', f'failure placeholder carries score {t.score!r}, not -inf')]
     return []
@@ -259,9 +270,6 @@ def monotone_fails(ev, P):
                               f'(span {start}+{ln}, fin={fin})'))
                 break
         prev = f
-        if fin and outs != 0.0:
-            fails.append((f'{P}/goal-outside-nonzero', f'goal item popped with outside estimate {outs}'))
-            break
     return fails
 
 
